@@ -260,16 +260,44 @@ impl World {
     /// Apply `op` to the real strings. Panics are caught and classified.
     pub fn apply_real(&mut self, op: &Op, r: &Resolved) -> Outcome {
         shadow::with(|h| h.events.clear());
+        // operations during which the harness allocates nothing itself: any global-allocator request in this
+        // window is made by the crate outside its buffer management (e.g. a temporary String)
+        let measurable = matches!(
+            op,
+            Op::Push { .. }
+                | Op::PushStr { .. }
+                | Op::Pop { .. }
+                | Op::Remove { .. }
+                | Op::Insert { .. }
+                | Op::InsertStr { .. }
+                | Op::Truncate { .. }
+                | Op::Clear { .. }
+                | Op::Reserve { .. }
+                | Op::ShrinkTo { .. }
+                | Op::ShrinkToFit { .. }
+                | Op::AddAssign { .. }
+                | Op::CloneFrom { .. }
+                | Op::Clone { .. }
+                | Op::FromStatic { .. }
+        );
+        let g0 = shadow::global_allocs();
         let res = catch_unwind(AssertUnwindSafe(|| self.apply_real_inner(op, r)));
+        let g = shadow::global_allocs() - g0;
+        self.last_other_allocs = None;
         match res {
-            Ok(o) => o,
+            Ok(o) => {
+                if measurable && matches!(o, Outcome::Ok(_)) {
+                    self.last_other_allocs = Some(g);
+                }
+                o
+            }
             Err(p) => classify_panic(p, false),
         }
     }
 
     fn apply_real_inner(&mut self, op: &Op, r: &Resolved) -> Outcome {
         if op.is_constructor() {
-            let slot = op.targets()[0];
+            let slot = op.first_target();
             return match self.construct_real(op, r) {
                 Ok(v) => {
                     self.set(slot, v);
